@@ -11,6 +11,8 @@ pub mod c06;
 pub mod c07;
 pub mod c08;
 pub mod c09;
+pub mod c12;
+pub mod c13;
 pub mod c14;
 pub mod c16;
 pub mod c17;
@@ -19,10 +21,25 @@ pub mod c19;
 pub mod wellformed;
 pub mod c15;
 
+/// Result of a deterministic enumeration stage (exhaustive small-domain search).
+pub struct EnumReport {
+    pub name: &'static str,
+    pub rule: String,
+    pub evaluations: u64,
+    pub distinct_nontrivial: u64,
+    pub space_size: u64,
+    pub exhaustive: bool,
+    pub samples: Vec<serde_json::Value>,
+    /// (message, explicit case for the replay file)
+    pub failure: Option<(String, serde_json::Value)>,
+}
+
 pub struct Property {
     pub id: &'static str,
     pub subchecks: Vec<SubCheck>,
     pub assumptions: &'static [&'static str],
+    /// optional exhaustive enumeration stage: f(thorough) -> report
+    pub enumerate: Option<fn(bool) -> EnumReport>,
 }
 
 pub fn property(id: &str) -> Option<Property> {
@@ -35,6 +52,8 @@ pub fn property(id: &str) -> Option<Property> {
         "C07" => Some(c07::property()),
         "C08" => Some(c08::property()),
         "C09" => Some(c09::property()),
+        "C12" => Some(c12::property()),
+        "C13" => Some(c13::property()),
         "C14" => Some(c14::property()),
         "C16" => Some(c16::property()),
         "C17" => Some(c17::property()),
@@ -45,4 +64,4 @@ pub fn property(id: &str) -> Option<Property> {
     }
 }
 
-pub const ALL: &[&str] = &["C01", "C02", "C03", "C04", "C06", "C07", "C08", "C09", "C14", "C15", "C16", "C17", "C18", "C19"];
+pub const ALL: &[&str] = &["C01", "C02", "C03", "C04", "C06", "C07", "C08", "C09", "C12", "C13", "C14", "C15", "C16", "C17", "C18", "C19"];
